@@ -47,6 +47,8 @@ type GV struct {
 	Export []bool   // T
 	Other  string   // O: chan | func | array | complex
 	NilRef bool     // L / M realised as a nil slice / nil map
+	Typed  bool     // L / M realised with the static element type of their (same-kind scalar) elements: []string, map[string]int64, …
+	NKey   bool     // M realised with a named string type as key type (type lang string; map[lang]…)
 }
 
 func gvNil() *GV            { return &GV{K: "N"} }
@@ -92,6 +94,9 @@ func (g *GV) Term() string {
 		if g.NilRef {
 			sb.WriteString(" nilref")
 		}
+		if g.Typed {
+			sb.WriteString(" typed")
+		}
 		for _, e := range g.Elems {
 			sb.WriteString(" " + e.Term())
 		}
@@ -101,6 +106,12 @@ func (g *GV) Term() string {
 		sb.WriteString("(M")
 		if g.NilRef {
 			sb.WriteString(" nilref")
+		}
+		if g.Typed {
+			sb.WriteString(" typed")
+		}
+		if g.NKey {
+			sb.WriteString(" nkey")
 		}
 		for i, e := range g.Elems {
 			sb.WriteString(" " + hx(g.Keys[i]) + " " + e.Term())
@@ -119,8 +130,67 @@ func (g *GV) Term() string {
 		return sb.String() + ")"
 	case "O":
 		return "(O " + g.Other + ")"
+	case "NT":
+		return fmt.Sprintf("(NT %d)", g.I)
 	}
 	return "(O bad)"
+}
+
+// named struct types: four different types that are all called "Rec" (function-local types of one package)
+func namedStruct(idx int64) any {
+	switch idx {
+	case 0:
+		type Rec struct {
+			A int
+			B string
+		}
+		return Rec{1, "x"}
+	case 1:
+		type Rec struct {
+			B string
+			C bool
+			A int
+		}
+		return Rec{"y", true, 2}
+	case 2:
+		type Rec struct {
+			Name  string
+			inner int
+			Tags  []string
+		}
+		return Rec{"n", 5, []string{"t"}}
+	}
+	type Rec struct{}
+	return Rec{}
+}
+
+func gvNamed(idx int64) *GV { return &GV{K: "NT", I: idx} }
+
+// a named string type, as applications use for map keys (type lang string)
+type namedKey string
+
+// commonElemType: the one static type all (non-nil, scalar) values share, or nil
+func commonElemType(vals []any) reflect.Type {
+	var t reflect.Type
+	for _, v := range vals {
+		if v == nil {
+			return nil
+		}
+		vt := reflect.TypeOf(v)
+		switch vt.Kind() {
+		case reflect.String, reflect.Bool, reflect.Float32, reflect.Float64,
+			reflect.Int, reflect.Int8, reflect.Int16, reflect.Int32, reflect.Int64,
+			reflect.Uint, reflect.Uint8, reflect.Uint16, reflect.Uint32, reflect.Uint64:
+		default:
+			return nil
+		}
+		if t == nil {
+			t = vt
+		} else if t != vt {
+			return nil
+		}
+	}
+	return t
 }
 
 // parse a term back (used by workers: they receive the term, not Go values)
@@ -206,13 +276,24 @@ func termToGV(t *term) *GV {
 				g.NilRef = true
 				continue
 			}
+			if a.list == nil && a.atom == "typed" {
+				g.Typed = true
+				continue
+			}
 			g.Elems = append(g.Elems, termToGV(a))
 		}
 		return g
 	case "M":
 		g := &GV{K: "M"}
-		if len(args) > 0 && args[0].list == nil && args[0].atom == "nilref" {
-			g.NilRef = true
+		for len(args) > 0 && args[0].list == nil && (args[0].atom == "nilref" || args[0].atom == "typed" || args[0].atom == "nkey") {
+			switch args[0].atom {
+			case "nilref":
+				g.NilRef = true
+			case "typed":
+				g.Typed = true
+			case "nkey":
+				g.NKey = true
+			}
 			args = args[1:]
 		}
 		for i := 0; i+1 < len(args); i += 2 {
@@ -230,6 +311,9 @@ func termToGV(t *term) *GV {
 		return g
 	case "O":
 		return &GV{K: "O", Other: args[0].atom}
+	case "NT":
+		n, _ := strconv.ParseInt(args[0].atom, 10, 64)
+		return &GV{K: "NT", I: n}
 	}
 	return &GV{K: "O", Other: "bad"}
 }
@@ -291,17 +375,50 @@ func (g *GV) Realise() any {
 		for _, e := range g.Elems {
 			out = append(out, e.Realise())
 		}
+		if et := commonElemType(out); g.Typed && et != nil {
+			sl := reflect.MakeSlice(reflect.SliceOf(et), 0, len(out))
+			for _, v := range out {
+				sl = reflect.Append(sl, reflect.ValueOf(v))
+			}
+			return sl.Interface()
+		}
 		return out
 	case "M":
 		if g.NilRef {
 			var m map[string]any
 			return m
 		}
-		out := map[string]any{}
-		for i, e := range g.Elems {
-			out[g.Keys[i]] = e.Realise()
+		vals := make([]any, 0, len(g.Elems))
+		for _, e := range g.Elems {
+			vals = append(vals, e.Realise())
 		}
-		return out
+		kt := reflect.TypeOf("")
+		if g.NKey {
+			kt = reflect.TypeOf(namedKey(""))
+		}
+		vt := reflect.TypeOf((*any)(nil)).Elem()
+		if et := commonElemType(vals); g.Typed && et != nil {
+			vt = et
+		}
+		if !g.NKey && !(g.Typed && vt.Kind() != reflect.Interface) {
+			out := map[string]any{}
+			for i, v := range vals {
+				out[g.Keys[i]] = v
+			}
+			return out
+		}
+		m := reflect.MakeMapWithSize(reflect.MapOf(kt, vt), len(vals))
+		for i, v := range vals {
+			kv := reflect.ValueOf(g.Keys[i]).Convert(kt)
+			var vv reflect.Value
+			if v == nil {
+				vv = reflect.Zero(vt)
+			} else {
+				vv = reflect.ValueOf(v)
+			}
+			m.SetMapIndex(kv, vv)
+		}
+		return m.Interface()
 	case "T":
 		var fields []reflect.StructField
 		var vals []any
@@ -327,6 +444,8 @@ func (g *GV) Realise() any {
 			}
 		}
 		return st.Interface()
+	case "NT":
+		return namedStruct(g.I)
 	case "O":
 		switch g.Other {
 		case "chan":
